@@ -187,7 +187,7 @@ impl Scenario for ModCmpCheck {
     fn budget(&self, tier: &Tier) -> (u64, u64) {
         match tier {
             Tier::Quick => (2_000_000, 30),
-            Tier::Thorough => (200_000_000, 900),
+            Tier::Thorough => (200_000_000, 600),
         }
     }
 
